@@ -61,6 +61,15 @@ impl Opd {
                 let mut d = v1::DecisionVariable::default();
                 d.id = *i;
                 d.kind = KIND_CONTINUOUS;
+                if *i % 2 == 0 {
+                    // metadata of the variable must not change what `x_i` means as an operand
+                    d.substituted_value = Some(3.0);
+                    d.name = Some("x".into());
+                    let mut b = v1::Bound::default();
+                    b.lower = -1.0;
+                    b.upper = 4.0;
+                    d.bound = Some(b);
+                }
                 d
             }
             _ => panic!("ENGINE: operand kind"),
@@ -551,7 +560,7 @@ pub fn run(ctx: &Ctx) -> Finish {
     );
     // Cap per-impl pair counts in the quick tier by thinning the *larger* pool deterministically
     // (stride, not sampling): every element of the smaller pool meets a fixed sub-grid of the larger.
-    let cap: usize = ctx.tier.pick(40_000, 2_000_000);
+    let cap: usize = ctx.tier.pick(400_000, 2_000_000);
     for (k, im) in table.iter().enumerate() {
         let pa = &pools[&im.lk];
         match im.rk {
@@ -583,6 +592,45 @@ pub fn run(ctx: &Ctx) -> Finish {
                 }
             }
         }
+    }
+    // extreme magnitudes (all powers of two, so still exact): a scalar below machine epsilon times
+    // coefficients large enough that every product is an ordinary number again
+    {
+        let tiny = 2f64.powi(-60);
+        let big = 2f64.powi(62);
+        let nums = vec![Opd::Num(tiny), Opd::Num(-tiny)];
+        let bigs: Vec<Opd> = vec![
+            Opd::Lin(FnRep::Lin { terms: vec![(1, big), (2, -big)], c: big }),
+            Opd::Quad(FnRep::Quad { entries: vec![(1, 2, big), (2, 2, -big)], lin: Some((vec![(7, big)], big)) }),
+            Opd::Quad(FnRep::Quad { entries: vec![(2, 1, big)], lin: None }),
+            Opd::Pol(FnRep::Poly { terms: vec![(vec![1, 2, 7], big), (vec![2], -big), (vec![], big)] }),
+            Opd::Fun(FnRep::Const(big)),
+            Opd::Fun(FnRep::Lin { terms: vec![(1, big)], c: -big }),
+            Opd::Fun(FnRep::Quad { entries: vec![(1, 1, big)], lin: Some((vec![(2, big)], 0.0)) }),
+            Opd::Fun(FnRep::Poly { terms: vec![(vec![7, 7, 1], big), (vec![], big)] }),
+        ];
+        // Only scalars are tiny: a *message* operand whose own coefficient is below machine epsilon may
+        // legitimately lose it when converted (the documented dropping), so it is outside the alphabet.
+        let tiny_fns: Vec<Opd> = vec![Opd::Fun(FnRep::Const(tiny))];
+        ctx.seq(|l| {
+            for im in table.iter().filter(|im| im.name.contains('*')) {
+                let Some(rk) = im.rk else { continue };
+                for a in nums.iter().chain(bigs.iter()).chain(tiny_fns.iter()) {
+                    for b in nums.iter().chain(bigs.iter()).chain(tiny_fns.iter()) {
+                        if a.kind() != im.lk || b.kind() != rk {
+                            continue;
+                        }
+                        // one tiny factor and one big factor
+                        let is_tiny = |o: &Opd| nums.contains(o) || tiny_fns.contains(o);
+                        if is_tiny(a) == is_tiny(b) {
+                            continue;
+                        }
+                        l.states += 1;
+                        check_case(l, &table, &Case::Op { name: im.name.to_string(), a: a.clone(), b: Some(b.clone()) });
+                    }
+                }
+            }
+        });
     }
     // term iterators of the operands themselves
     for k in [Kind::Lin, Kind::Quad, Kind::Pol, Kind::Fun] {
